@@ -657,7 +657,7 @@ def all_terms(x, acc):
             all_terms(y, acc)
 
 
-def split_steps(sdb, rnd, schedule, with_subsume=False, subsume_ctors=True, with_unions=False):
+def split_steps(sdb, rnd, schedule, with_subsume=False, subsume_ctors=True, with_unions=False, types=None):
     """Distribute the small rows over the steps of `schedule` (a list of ruleset names): each row is written
     either at top level before some step ('pre') or by a rule during some step but the last ('aux').
     with_subsume: some relation rows are later subsumed (at top level or by a rule), and some subsumed tuples are
@@ -697,6 +697,35 @@ def split_steps(sdb, rnd, schedule, with_subsume=False, subsume_ctors=True, with
                     later.append((rnd.randrange(k2 + 1, n), "pre", "ins", name, key, val))
     for ev in later:
         emit(*ev)
+    if with_unions and with_subsume and subsume_ctors and types is not None:
+        # targeted scenario for "a subsumed row merged with a congruent live row stays subsumed, in either order":
+        # two rows c(a, k..) and c(b, k..) of a constructor with an eq-sort argument, one of them subsumed, then a ~ b
+        base = [nm for nm in sorted(types) if gen.kind_of(nm) == "ctor" and all(t == "i" for t in types[nm][0])]
+        nest = [nm for nm in sorted(types) if gen.kind_of(nm) == "ctor" and any(t == "E" for t in types[nm][0])]
+        if base and nest and n >= 2:
+            bn, cn_ = rnd.choice(base), rnd.choice(nest)
+            i, j = rnd.sample(range(4), 2)
+            a = (bn, tuple(i for _ in types[bn][0]))
+            b = (bn, tuple(j for _ in types[bn][0]))
+            kconst = rnd.randrange(4)
+            ka = tuple(a if t == "E" else kconst for t in types[cn_][0])
+            kb = tuple(b if t == "E" else kconst for t in types[cn_][0])
+            first, second = (ka, kb) if rnd.random() < 0.5 else (kb, ka)
+            k0 = rnd.randrange(n - 1)
+            emit(k0, "pre", "ins", cn_, first, None)
+            emit(k0, "pre", "ins", cn_, second, None)
+            # a relation row mentioning each of the two terms, where the body has such a relation
+            for rn in sorted(types):
+                if gen.kind_of(rn) == "rel" and "E" in types[rn][0]:
+                    for kk in (ka, kb):
+                        emit(k0, "pre", "ins", rn, tuple((cn_, kk) if t == "E" else rnd.randrange(4) for t in types[rn][0]), None)
+                    break
+            emit(k0, "pre", "sub", cn_, ka if rnd.random() < 0.5 else kb, None)
+            k1 = rnd.randrange(k0, n)
+            steps[k1]["pre"].append("(union %s %s)" % (gen.val_text(a), gen.val_text(b)))
+            timeline.append((k1, "pre", "union", None, (a, b), None))
+            order_ = {"pre": 0, "aux": 1}
+            timeline.sort(key=lambda e: (e[0], order_[e[1]]))
     if with_unions:
         terms = set()
         for name, rows in sdb.items():
@@ -1056,7 +1085,8 @@ def work_item(args):
         # head variable has the eq-sort (the rule's matches stay observable through the printed Out table)
         with_unions = seed >= 1000 and any(gen.kind_of(nm) == "ctor" for nm in atoms.types)
         steps, placed = split_steps(sdb, rnd, schedule, with_subsume=(prop == "C13"),
-                                    subsume_ctors=not any(gen.var_type(v) == "E" for v in head), with_unions=with_unions)
+                                    subsume_ctors=not any(gen.var_type(v) == "E" for v in head), with_unions=with_unions,
+                                    types=atoms.types)
         res["unions"] = sum(1 for e in placed if e[2] == "union")
         tail = None
         check_expect = None
@@ -1385,6 +1415,9 @@ def configs_for(prop, tier, seed):
                 continue  # merge functions cannot be subsumed
             cfgs = [(nd, prof, sd, sc, rules) for sc in (["main", "main"], ["main", "main", "main"]) for prof in profs
                     for nd in (False, True) for sd in (seeds if not quick else seeds[:1])]
+            if any(gen.kind_of(nm) == "ctor" for nm in gen.parse_body(body).types):
+                # with unions: a subsumed row merged with a congruent live row (either order) must stay subsumed
+                cfgs += [(nd, prof, sd + 1000, sc, rl) for (nd, prof, sd, sc, rl) in cfgs]
             items.append((sid, body, cfgs))
     else:
         raise SystemExit("no E2 configuration for " + prop)
